@@ -392,14 +392,15 @@ func (c *compiler) compileType(y *Type, parent Leafable, isUnion bool) error {
 	}
 
 	if y.format == val.FmtBits || y.format == val.FmtBitsList {
+		// RFC 7950 9.7.4.2: without a position statement, one more than the highest so far
 		nextPos := 0
 		for _, item := range y.bits {
-			if item.Position > 0 {
-				nextPos = item.Position
-			} else {
+			if !item.posSet {
 				item.Position = nextPos
 			}
-			nextPos++
+			if item.Position >= nextPos {
+				nextPos = item.Position + 1
+			}
 		}
 	}
 
